@@ -1682,7 +1682,11 @@ def _overlap_collision_time(
 ) -> int:
     # Tracks the first used moment index for each qubit in c2.
     # Tracks the complementary last used moment index for each qubit in c1.
-    seen_times: dict[cirq.Qid, int] = {}
+    # Measurement and control keys order operations just as shared qubits do.
+    seen_times: dict[cirq.Qid | cirq.MeasurementKey, int] = {}
+
+    def lines(op: cirq.Operation):
+        return (*op.qubits, *protocols.measurement_key_objs(op), *protocols.control_keys(op))
 
     # Start scanning from end of first and start of second.
     if align == Alignment.LEFT:
@@ -1698,7 +1702,7 @@ def _overlap_collision_time(
     while t < upper_bound:
         if t < len(c2):
             for op in c2[t]:
-                for q in op.qubits:
+                for q in lines(op):
                     # Record time but check if qubit already seen on other side.
                     k2 = seen_times.setdefault(q, t)
                     if k2 < 0:
@@ -1706,7 +1710,7 @@ def _overlap_collision_time(
                         upper_bound = min(upper_bound, t + ~k2)
         if t < len(c1):
             for op in c1[-1 - t]:
-                for q in op.qubits:
+                for q in lines(op):
                     # Record time but check if qubit already seen on other side.
                     # Note t is bitwise complemented to pack in left-vs-right origin data.
                     k2 = seen_times.setdefault(q, ~t)
